@@ -557,7 +557,7 @@ fn c02_cookie_strategy(client_addr: String, expiry: u64) -> BoxedStrategy<(Optio
         2 => (0u8..5).prop_map(|i| Mutation::Body(BodyKind::MissingField(i))),
         2 => (0u8..5).prop_map(|i| Mutation::Body(BodyKind::WrongType(i))),
     ];
-    let other_secret = prop_oneof![5 => Just(None), 1 => proptest::collection::vec(any::<u8>(), 0..40).prop_map(Some)];
+    let other_secret = prop_oneof![10 => Just(None), 2 => proptest::collection::vec(any::<u8>(), 0..40).prop_map(Some), 1 => Just(Some(Vec::new()))];
     let spec = (age, addr, gens::identity(), proptest::option::of("[a-z0-9-]{0,12}"), other_secret, mutation)
         .prop_map(move |(age, addr, identity, target, other_secret, mutation)| {
             // an address that differs only by IPv4-mapping from the client's is neither "same" nor "other"
@@ -590,7 +590,7 @@ impl Check for C02 {
                     Just(expiry),
                     c02_cookie_strategy(client_addr, expiry),
                     prop_oneof![1 => Just(2i32), 4 => Just(3i32)],
-                    prop_oneof![1 => Just(None), 1 => Just(Some(Vec::new())), 6 => proptest::collection::vec(any::<u8>(), 1..=64).prop_map(Some)],
+                    prop_oneof![1 => Just(None), 1 => Just(Some(Vec::new())), 6 => proptest::collection::vec(any::<u8>(), 1..=64).prop_map(Some), 1 => proptest::collection::vec(any::<u8>(), 65..=130).prop_map(Some)],
                     gens::name(),
                     gens::uuid(),
                     prop_oneof![3 => profile_strategy().prop_map(AuthV::Ok), 1 => Just(AuthV::Echo), 1 => Just(AuthV::Err)],
@@ -619,6 +619,23 @@ impl Check for C02 {
                         adapters: AdapterScript { auth, discovery: Some(targets), ..Default::default() },
                         select_seed,
                     };
+                }
+                // a secret longer than the HMAC block and a cookie signed with a related key
+                let mut cookie = cookie;
+                if let (Some(sec), Some(spec)) = (&secret, cookie.as_mut()) {
+                    if sec.len() > 64 && select_seed % 3 == 0 && spec.other_secret.is_none() {
+                        // either its first 64 bytes alone (what a truncating implementation would key with), or the
+                        // same first 64 bytes with another tail
+                        let mut twin = sec.clone();
+                        if select_seed % 2 == 0 {
+                            twin.truncate(64);
+                        } else {
+                            for b in twin[64..].iter_mut() {
+                                *b = !*b;
+                            }
+                        }
+                        spec.other_secret = Some(twin);
+                    }
                 }
                 AuthCase {
                     cfg: ConnCfg { secret, expiry, client_addr, ..Default::default() },
